@@ -47,7 +47,7 @@ type Term struct {
 type TF struct {
 	tab   map[string]*Term
 	n     int
-	Decls []*Term          // variables in declaration order
+	Decls []*Term           // variables in declaration order
 	UFs   map[string]string // uf name -> declaration
 	ufOrd []string
 }
@@ -93,7 +93,7 @@ func (f *TF) Int(i int64) *Term { return f.IntB(bi(i)) }
 func (f *TF) IntB(i *big.Int) *Term {
 	return f.mk(&Term{Op: "int", Sort: SInt, I: i, Lo: i, Hi: i})
 }
-func (f *TF) Bool(b bool) *Term { return f.mk(&Term{Op: "bool", Sort: SBool, B: b}) }
+func (f *TF) Bool(b bool) *Term  { return f.mk(&Term{Op: "bool", Sort: SBool, B: b}) }
 func (f *TF) Str(s string) *Term { return f.mk(&Term{Op: "sconst", Sort: SStr, S: s}) }
 func (f *TF) BytesConst(s string) *Term {
 	return f.mk(&Term{Op: "bconst", Sort: SBytes, S: s})
@@ -109,9 +109,11 @@ func (f *TF) Var(name string, s Sort, lo, hi *big.Int) *Term {
 	return t
 }
 
-func (t *Term) IsConst() bool { return t.Op == "int" || t.Op == "bool" || t.Op == "sconst" || t.Op == "bconst" }
-func (t *Term) IsTrue() bool   { return t.Op == "bool" && t.B }
-func (t *Term) IsFalse() bool  { return t.Op == "bool" && !t.B }
+func (t *Term) IsConst() bool {
+	return t.Op == "int" || t.Op == "bool" || t.Op == "sconst" || t.Op == "bconst"
+}
+func (t *Term) IsTrue() bool  { return t.Op == "bool" && t.B }
+func (t *Term) IsFalse() bool { return t.Op == "bool" && !t.B }
 
 func (f *TF) UF(name string, ret Sort, args ...*Term) *Term {
 	if _, ok := f.UFs[name]; !ok {
@@ -157,7 +159,6 @@ func negB(a *big.Int) *big.Int {
 	}
 	return new(big.Int).Neg(a)
 }
-
 
 // ---- linear forms: a = Σ coef·atom + c
 
